@@ -15,6 +15,8 @@ import (
 var fns = map[string]interface{}{
 	"AddU8": tx.AddU8, "AddI8": tx.AddI8, "SubU16": tx.SubU16, "MulI16": tx.MulI16, "MulI32": tx.MulI32, "SubU64": tx.SubU64,
 	"AddI64": tx.AddI64, "NegI32": tx.NegI32, "NegU8": tx.NegU8, "Mixed": tx.Mixed,
+	"DivU32": tx.DivU32, "RemU8": tx.RemU8, "DivI32": tx.DivI32, "RemI32": tx.RemI32, "DivI8": tx.DivI8, "RemI64": tx.RemI64,
+	"DivConst": tx.DivConst, "DivU64Const": tx.DivU64Const, "PanicBoxed": tx.PanicBoxed,
 	"AndNotU32": tx.AndNotU32, "XorI32": tx.XorI32, "OrI8": tx.OrI8, "AndI64": tx.AndI64, "ComplU8": tx.ComplU8,
 	"ComplU64": tx.ComplU64, "ComplI32": tx.ComplI32, "AndNotI32": tx.AndNotI32,
 	"ShlU8": tx.ShlU8, "ShlU32": tx.ShlU32, "ShlU64": tx.ShlU64, "ShlI32": tx.ShlI32, "ShlI64": tx.ShlI64, "ShrU8": tx.ShrU8,
